@@ -16,25 +16,31 @@
 
 EXTERN_C_BEGIN
 
+/*
+ * NOTE: the operand is converted to the unsigned type of the swapped width
+ * first, so that the macros are defined for operands of every integer type
+ * (without it, an int32_t/int16_t/... operand is promoted to int and
+ * `(value & 0xFF) << 24` shifts into the sign bit)
+ */
 #define MUGGLE_ENDIAN_SWAP_16(value) \
-	((((value) & 0x00FF) << 8) | \
-	 (((value) & 0xFF00) >> 8))
+	(((((uint16_t)(value)) & 0x00FF) << 8) | \
+	 ((((uint16_t)(value)) & 0xFF00) >> 8))
 
 #define MUGGLE_ENDIAN_SWAP_32(value) \
-	((((value) & 0x000000FF) << 24) | \
-	 (((value) & 0x0000FF00) <<  8) | \
-	 (((value) & 0x00FF0000) >>  8) | \
-	 (((value) & 0xFF000000) >> 24))
+	(((((uint32_t)(value)) & 0x000000FF) << 24) | \
+	 ((((uint32_t)(value)) & 0x0000FF00) <<  8) | \
+	 ((((uint32_t)(value)) & 0x00FF0000) >>  8) | \
+	 ((((uint32_t)(value)) & 0xFF000000) >> 24))
 
 #define MUGGLE_ENDIAN_SWAP_64(value) \
-	((((value) & 0x00000000000000FF) << 56) | \
-	 (((value) & 0x000000000000FF00) << 40) | \
-	 (((value) & 0x0000000000FF0000) << 24) | \
-	 (((value) & 0x00000000FF000000) <<  8) | \
-	 (((value) & 0x000000FF00000000) >>  8) | \
-	 (((value) & 0x0000FF0000000000) >> 24) | \
-	 (((value) & 0x00FF000000000000) >> 40) | \
-	 (((value) & 0xFF00000000000000) >> 56))
+	(((((uint64_t)(value)) & 0x00000000000000FF) << 56) | \
+	 ((((uint64_t)(value)) & 0x000000000000FF00) << 40) | \
+	 ((((uint64_t)(value)) & 0x0000000000FF0000) << 24) | \
+	 ((((uint64_t)(value)) & 0x00000000FF000000) <<  8) | \
+	 ((((uint64_t)(value)) & 0x000000FF00000000) >>  8) | \
+	 ((((uint64_t)(value)) & 0x0000FF0000000000) >> 24) | \
+	 ((((uint64_t)(value)) & 0x00FF000000000000) >> 40) | \
+	 ((((uint64_t)(value)) & 0xFF00000000000000) >> 56))
 
 #define MUGGLE_LITTLE_ENDIAN 0 //!< little endian
 #define MUGGLE_BIG_ENDIAN    1 //!< big endian
